@@ -99,12 +99,21 @@ func (c *C) Only() (interface{}, error) { return c.B.ReflResolve(c.ID, "only", n
 // P is realised by exported struct FIELDS (no methods, no resolver calls): the reflection path that reads a
 // Go field by name.  It is met as a value (Query.pv) and through a pointer (Query.pp, Query.ps).
 type P struct {
-	Name string
-	Peer interface{}
-	Say  string
-	N    int
-	id   string
+	*PAudit // Stamp is promoted through the pointer
+	PBase   // Rank is promoted from the value
+	Name    string
+	Peer    interface{}
+	Say     string
+	N       int
+	id      string
+	code    string
 }
+
+type PAudit struct{ Stamp string }
+type PBase struct{ Rank int }
+
+// Code has a pointer receiver: the value form of P does not have it in its method set.
+func (p *P) Code() string { return p.code }
 
 func (p *P) NodeID() string { return p.id }
 
@@ -121,6 +130,16 @@ func newP(b Backend, id string) P {
 	}
 	if v, _ := b.ReflResolve(id, "n", nil); v != nil {
 		p.N, _ = v.(int)
+	}
+	p.PAudit = &PAudit{}
+	if v, _ := b.ReflResolve(id, "stamp", nil); v != nil {
+		p.Stamp, _ = v.(string)
+	}
+	if v, _ := b.ReflResolve(id, "rank", nil); v != nil {
+		p.Rank, _ = v.(int)
+	}
+	if v, _ := b.ReflResolve(id, "code", nil); v != nil {
+		p.code, _ = v.(string)
 	}
 	return p
 }
